@@ -87,15 +87,16 @@ def run(prop, tier, replay):
     # 1. model-check the design ---------------------------------------------------------------
     if tier == "quick":
         mcs = [("mask", MC_MASK.format(nf=2, nr=1, depth=2)), ("expr", MC_EXPR.format(nf=1, nr=2, depth=3))]
-        runs = [dict(nf=2, nr=1, embed="dense", section="all", leaves=2),
-                dict(nf=2, nr=1, embed="wide", section="all", leaves=2),
-                dict(nf=1, nr=2, embed="dense", section="all", leaves=2),
-                dict(nf=1, nr=2, embed="wide", section="all", leaves=2)]
+        runs = [dict(nf=nf, nr=nr, embed=e, section=sec, leaves=2)
+                for (nf, nr) in ((2, 1), (1, 2)) for e in ("dense", "wide")
+                for sec in ("tm1", "tm2", "m1", "m2", "ev")]
     else:
         mcs = [("mask", MC_MASK.format(nf=2, nr=1, depth=3)), ("mask2", MC_MASK.format(nf=1, nr=2, depth=4)),
                ("expr", MC_EXPR.format(nf=1, nr=2, depth=4)), ("expr2", MC_EXPR.format(nf=2, nr=1, depth=3))]
-        runs = [dict(nf=2, nr=1, embed=e, section="all", leaves=3) for e in ("dense", "wide")]
-        runs += [dict(nf=1, nr=2, embed=e, section="all", leaves=4) for e in ("dense", "wide")]
+        runs = [dict(nf=2, nr=1, embed=e, section=sec, leaves=3) for e in ("dense", "wide")
+                for sec in ("tm1", "tm2", "m1", "m2", "ev")]
+        runs += [dict(nf=1, nr=2, embed=e, section=sec, leaves=3) for e in ("dense", "wide")
+                 for sec in ("tm1", "tm2", "m1", "m2", "ev")]
         runs += [dict(nf=2, nr=2, embed=e, section=s, leaves=2) for e in ("dense", "wide") for s in ("tm1", "tm2", "m1", "ev")]
         nm = (36 + 1) ** 2
         step = 120
@@ -125,7 +126,8 @@ def run(prop, tier, replay):
         i, r = i_run
         tf = os.path.join(wd, f"t{i}.ndjson")
         args = ["--nf", r["nf"], "--nr", r["nr"], "--embed", r["embed"], "--section", r["section"],
-                "--leaves", r["leaves"], "--out", tf, "--seed", vlib.seed()]
+                "--leaves", r["leaves"], "--out", tf, "--seed", vlib.seed(),
+                "--costly-budget", 2 if tier == "quick" else 6]
         if "a_lo" in r:
             args += ["--a-lo", r["a_lo"], "--a-hi", r["a_hi"]]
         vlib.harness_run(binary, args)
@@ -134,11 +136,12 @@ def run(prop, tier, replay):
         return i, r, tf, v
 
     results = []
-    with cf.ThreadPoolExecutor(max_workers=6) as ex:
+    with cf.ThreadPoolExecutor(max_workers=8) as ex:
         for res in ex.map(one, list(enumerate(runs))):
             results.append(res)
     events = accepted = 0
     skipped_total = {}
+    exhaustive_sections = set()
     samples = []
     distinct_ops = set()
     exhaustive = True
@@ -153,6 +156,7 @@ def run(prop, tier, replay):
                               (r["a_lo"], r["a_hi"]) if "a_lo" in r else None,
                               dense=r["embed"] == "dense", per=r["nr"] + 1)
         exp["univ"] = 1
+        exhaustive_sections.add((r["nf"], r["nr"], r["embed"], r["section"]))
         got = {k: n for k, n in rep["counts"].items() if n}
         skipped = rep.get("skipped", {})
         for k, n in skipped.items():
